@@ -370,6 +370,10 @@ pub fn drive(args: &[String]) {
     for (set, nn) in [(1u32, 1u32), (1, 81), (2, 0), (2, 204), (3, 1), (1, 0), (2, 5000)] {
         body.push(SInst { op: 12, rt: Some(50), rid: Some(5000 + body.len() as u32), ops: vec![SOp::one("IdRef", set), SOp::one("LiteralExtInstInteger", nn)] });
     }
+    // a set operand that names an OpString spelling "GLSL.std.450" (id 112), not an import: numbers stay numbers
+    for nn in [1u32, 2, 81] {
+        body.push(SInst { op: 12, rt: Some(50), rid: Some(6000 + body.len() as u32), ops: vec![SOp::one("IdRef", 112), SOp::one("LiteralExtInstInteger", nn), SOp::one("IdRef", 60)] });
+    }
     // the same number from the two known sets back to back, in both orders
     for nn in 0..90u32 {
         for set in [1u32, 2, 2, 1] {
